@@ -57,7 +57,10 @@ Fault(f) ==
     [] f = "syn_call"     -> RawTag(<<"<%=", " ", "f", "(", "1", ",", " ", "%>">>)
     [] f = "syn_for"      -> RawTag(<<"<%", " ", "for", " ", "(", "x", " ", "in", " ", "y", " ", "%>">>)
 
-Places == {"top", "if", "else", "for", "for2", "fn", "blk", "afterblock", "aftermlblock", "afterfor", "partial"}
+Places == {"top", "if", "else", "for", "for2", "fn", "blk", "afterblock", "aftermlblock", "afterfor", "partial", "aftercall", "aftercontentof", "afterpartial"}
+\* placements in which the fault is the right operand of + after a call that executed statements on other lines
+ExprPlaces == {"aftercall", "aftercontentof", "afterpartial"}
+ExprFaults == {"unk", "failh", "type", "range", "nofunc", "div0"}
 \* [before: statements before the failing tag's line (inside the construct), prog: the whole construct given the failing tag F]
 \* line of the failing tag = 1 + newlines in Unparse(pre) + newlines in `lead`
 Placed(pl, FT) ==
@@ -80,6 +83,12 @@ Placed(pl, FT) ==
                          rest |-> <<Emit(If(Bool(TRUE), <<Text(<<"NL">>), Emit(IntL(1)), Text(<<"NL">>)>>)), Text(<<"NL">>), FT>>, parts |-> EmptyScope]
     [] pl = "afterfor" -> [lead |-> <<"NL", "NL">>,
                          rest |-> <<Emit(For("", "v", Arr(<<IntL(1)>>), <<Text(<<"NL">>), Emit(Id("v"))>>)), Text(<<"NL">>), FT>>, parts |-> EmptyScope]
+    [] pl = "aftercall" -> [lead |-> <<"NL", "NL", "NL", "NL">>,   \* a multi-line function, called in the failing tag before the fault
+                         rest |-> <<Let("g", FnLit(<<>>, <<Text(<<"NL">>), Emit(IntL(1)), Text(<<"NL">>)>>)), Text(<<"NL", "NL">>), Emit(Bin("+", Call("g", <<>>), FT.e))>>, parts |-> EmptyScope]
+    [] pl = "aftercontentof" -> [lead |-> <<"NL", "NL", "NL">>,
+                         rest |-> <<Code(CallB("contentFor", <<Str(<<"c">>)>>, <<Text(<<"NL">>), Emit(IntL(2)), Text(<<"NL">>)>>)), Text(<<"NL">>), Emit(Bin("+", Call("contentOf", <<Str(<<"c">>)>>), FT.e))>>, parts |-> EmptyScope]
+    [] pl = "afterpartial" -> [lead |-> <<"NL">>,
+                         rest |-> <<Text(<<"NL">>), Emit(Bin("+", Call("partial", <<Str(<<"p">>)>>), FT.e))>>, parts |-> [p |-> <<Text(<<"NL", "NL">>), Emit(IntL(3)), Text(<<"NL">>)>>]]
     [] pl = "partial" -> [lead |-> <<>>,      \* the failing statement is in the partial; the outer error names the tag that calls it
                          rest |-> <<Emit(Call("partial", <<Str(<<"p">>)>>)), Text(<<"NL">>)>>, parts |-> [p |-> <<Text(<<"NL">>), FT>>]]
 
@@ -89,6 +98,7 @@ Init == pre = <<>> /\ fault = "none" /\ place = "none" /\ stage = "pre"
 AddItem == stage = "pre" /\ Len(pre) < MaxPre /\ \E n \in ItemNames : pre' = Append(pre, n) /\ UNCHANGED <<fault, place, stage>>
 Pick == /\ stage = "pre" /\ \E f \in Faults, pl \in Places :
               /\ (IsSyntax(f) /\ pl = "partial" => FALSE)       \* (a partial with a syntax error: inner parse error, kept out)
+              /\ (pl \in ExprPlaces => f \in ExprFaults)
               /\ fault' = f /\ place' = pl
         /\ stage' = "done" /\ UNCHANGED pre
 Spec == Init /\ [][AddItem \/ Pick]_vars
